@@ -94,7 +94,7 @@ void h_cores(void) {
 }
 """ % blk
     return dict(unit="K27_cores_block_" + name, lang="c", source=rel + " (--cores option block)", text=fn, entry="h_cores",
-                enforce="cores_block", replace=["set_global_tbb_concurrency"], mode="proof", timeout=120,
+                enforce="cores_block", replace=["set_global_tbb_concurrency"], mode="proof", timeout=600,
                 bound="every valuation of verbose/parallel/cores (cores >= 0)", rewrites=log, dropped=["the rest of main"],
                 functions={"%s: --cores option block" % name: "proved"},
                 assumptions=["boost::program_options: an option with default_value is always counted; values as parsed"],
